@@ -546,9 +546,14 @@ Render(path, key, snap) ==
     [] path = "reward"     -> IF key \in DOMAIN snap.rewards THEN [ok |-> TRUE, v |-> snap.rewards[key]] ELSE [ok |-> FALSE]
     [] path = "gov_params" -> IF snap.govLedger.some THEN [ok |-> TRUE, v |-> snap.govLedger.v] ELSE [ok |-> FALSE]
     [] path = "stakes/total_power" -> [ok |-> TRUE, v |-> BondedPower(snap)]
+    [] path = "proposal" ->
+         IF key = "all" THEN [ok |-> TRUE, v |-> [props |-> snap.props, fprops |-> snap.fprops]]
+         ELSE IF key \in DOMAIN snap.props THEN [ok |-> TRUE, v |-> [status |-> "voting", prop |-> snap.props[key]]]
+         ELSE IF key \in DOMAIN snap.fprops THEN [ok |-> TRUE, v |-> [status |-> "frozen", prop |-> snap.fprops[key]]]
+         ELSE [ok |-> FALSE]
     [] OTHER -> [ok |-> FALSE]
 
-Judged == {"account", "delegatee", "reward", "gov_params", "stakes/total_power"}
+Judged == {"account", "delegatee", "reward", "gov_params", "stakes/total_power", "proposal"}
 
 \* serving a query never alters the consensus state (digest of the full projection before = after)
 QueryReadOnly(e) ==
@@ -578,6 +583,8 @@ C19Commit(e, pre) ==
       \cup If(c.delegs # pre.delegs, "C19: delegatees returned by queries differ from what the block committed")
       \cup If(c.rewards # pre.rewards, "C19: rewards returned by queries differ from what the block committed")
       \cup If(c.props # pre.props \/ c.fprops # pre.fprops, "C19: proposals returned by queries differ from what the block committed")
+      \cup If("propsH" \in DOMAIN c /\ (c.propsH # pre.props \/ c.fpropsH # pre.fprops),
+              "C19: a proposal the block committed is not (or not identically) returned by the query for its transaction hash")
   ELSE {}
 
 ---------------------------------------------------------------------------
